@@ -354,10 +354,18 @@ func baseHello(r *rand.Rand) *hello.Hello {
 	return h
 }
 
-type extraInjector struct{ name, val string }
+type extraInjector struct {
+	name, val string
+	fail      bool
+}
 
-func (e extraInjector) GetHeaderName() string                            { return e.name }
-func (e extraInjector) GetHeaderValue(*http.Request) (string, error)     { return e.val, nil }
+func (e extraInjector) GetHeaderName() string { return e.name }
+func (e extraInjector) GetHeaderValue(*http.Request) (string, error) {
+	if e.fail {
+		return "", fmt.Errorf("custom injector %s cannot compute a value for this request", e.name)
+	}
+	return e.val, nil
+}
 
 func (c *checker) endToEnd() {
 	run := c.run
@@ -372,7 +380,10 @@ func (c *checker) endToEnd() {
 	defer pa.Stop()
 	saved := fingerproxy.GetHeaderInjectors
 	fingerproxy.GetHeaderInjectors = func() []reverseproxy.HeaderInjector {
-		return append([]reverseproxy.HeaderInjector{extraInjector{"X-Custom-First", "1"}}, append(fingerproxy.DefaultHeaderInjectors(), extraInjector{"X-Custom-Last", "2"})...)
+		// custom additions around the default three: one that fails for every request comes first
+		inj := []reverseproxy.HeaderInjector{extraInjector{name: "X-Custom-Failing", fail: true}, extraInjector{name: "X-Custom-First", val: "1"}}
+		inj = append(inj, fingerproxy.DefaultHeaderInjectors()...)
+		return append(inj, extraInjector{name: "X-Custom-Between", fail: true}, extraInjector{name: "X-Custom-Last", val: "2"})
 	}
 	pb, err := rig.StartProxy(be.URL, rig.ProxyOpts{Args: []string{"-preserve-host"}})
 	fingerproxy.GetHeaderInjectors = saved
